@@ -32,6 +32,7 @@ type Prog struct {
 	allFuncs map[*ssa.Function]bool
 	callers  map[*ssa.Function][]ssa.CallInstruction
 	closures map[*ssa.Function][]*ssa.MakeClosure
+	bound    map[*ssa.Function][]*ssa.MakeClosure
 }
 
 // Load loads ./... of dir with full syntax for all dependencies and builds SSA.
